@@ -244,7 +244,12 @@ def agg_outer_vars(agg, rule_outer):
         for v in vars_of(agg.target, True):
             if v not in inner:
                 inner.append(v)
-    return [v for v in inner if rule_outer is not None and v in rule_outer]
+    # souffle's scoping rule (SimplifyAggregateTargetExpression): variables of a complex target expression
+    # shadow outer-scope variables of the same name, i.e. they are local to the aggregate
+    local = set()
+    if agg.target is not None and agg.target.__class__ is not Var:
+        local = set(vars_of(agg.target, True))
+    return [v for v in inner if rule_outer is not None and v in rule_outer and v not in local]
 
 
 def exact_float_sum(vals):
